@@ -186,6 +186,16 @@ def a2(ctx):
         ctx.check(surv_ok, "stored-in-survivor:" + key, "the joined datum is stored in the surviving class (deprecated side: %s)" % sorted(p for _, p in dep_top),
                   "the joined datum is stored through %s (bound to %s), which is not the surviving class's datum (the class whose union-find entry is redirected is %s)" % (role_str(tgt)[:80], sorted(lifted), sorted(dep_top)), where_of(b, bi, s.get("line")))
         _both_queues_on_change(ctx, crate, b, bi, None, key, store_stmt=s)
+        # the deprecated class's datum is read while the class still answers for itself: the canonicalising accessor
+        # (analysis_data goes through find_id) returns the SURVIVOR's datum once the union-find entry has been redirected, and the
+        # join degenerates to merge(survivor, survivor)
+        reads = [c for c in b.calls if c.callee and c.callee.name in ("analysis_data", "analysis_data_mut") and not b.blocks[c.bb]["cleanup"] and len(c.args) > 1]
+        sets = [c for c in C.calls_to(crate, b, ufs) if c.body is b]
+        for c in reads:
+            late = [u for u in sets if c.bb in b.reach(b.after(u.bb))]
+            ctx.check(not late, "datum-read-before-redirect:" + key, "the data of both classes are read before the union-find entry of the deprecated class is redirected",
+                      "%s reads a class's datum through the canonicalising accessor after the union-find entry of the deprecated class was redirected: for the deprecated id the accessor now answers with the survivor's datum, so the merge joins the survivor with itself and the absorbed class's information is lost" % C.short(b.id),
+                      where_of(b, c.bb))
     ctx.floor("datum stores in the merge region", n, 1)
 
 
@@ -342,3 +352,12 @@ def mc(ctx):
 
 
 RULES.append(mc)
+
+
+@rule("A7", doc="on a class merge every e-node of the absorbed class is moved and queued for re-processing — unconditionally: re-processing the moved node in its new class is what joins make(node) into the survivor's datum (C12.O1)")
+def a7(ctx):
+    from . import c12
+    c12.o1(ctx)
+
+
+RULES.append(a7)
